@@ -95,11 +95,23 @@ def run(ctx) -> Result:
             hist = pipe.gen_history(rng, n_ops=rng.randint(3, 14), paced=True, burst_prob=rng.choice([0.0, 0.5, 0.9]))
         one(ctx, res, hist, cfg, batch)
     pipecheck.check_model(res, "C01", batch)
+    # the gated driver lets the reader and the emitter take turns; the interleavings INSIDE the buffer (the emitter waiting
+    # in DelayedQueue.get() while the reader pairs, removes and puts) are those of the reader/consumer LTS the C01 model
+    # sits on (Grouping.v over DelayQueue.v): its lock-step tie + exactly-once/pairing oracle run here too (shared with C08)
+    from harness.props import c08
+    cases, metas = [], []
+    c08.buffer_campaign(ctx, res, cases, metas, 120 if not ctx.thorough else 800, corpus=False)
+    c08.compare(res, cases, metas)
+    res.notes.append("buffer layer: real InotifyBuffer + DelayedQueue under the deterministic scheduler in lock-step with Grouping.v/"
+                     "DelayQueue.v (renames cut across reads, consumer inside get() while the reader pairs) - shared with C08")
     return res
 
 
 def replay(ctx, obj) -> int:
     case = obj.get("case", obj)
+    if isinstance(case, dict) and "program" in case:
+        from harness.props import c08
+        return c08.replay(ctx, obj)
     res = Result()
     batch = []
     one(ctx, res, case["history"], (case["recursive"], case["full_events"], case["path_kind"]), batch)
